@@ -23,6 +23,7 @@ RULE = ("seeded Woehler curves (k_1, SD, ND) and load collectives: interval-inde
         "irregular limits, non-negative integer cycle counts with empty classes at the top, bottom and in between) and "
         "range/mean/cycles frames, scaled to load levels around SD. Damage of the real accessor is compared with an own "
         "sum n_i/N(S_i); the collective scaled to the predicted Gassner cycle number must give damage 1 under the matching "
+        "Widened during the build: reversed/permuted class orders, kept histogram and Miner objects, curves at a native probability != 50 % or carrying k_2, histograms over integer class limits brought to the load level by the library's own scale(). "
         "Miner rule. Non-trivial: at least two occupied classes; distinct = distinct (curve, collective).")
 ASSUMPTIONS = ["own Basquin damage (this file) is the trusted definition of n_i/N(S_i)",
                "Gassner consistency is judged at rtol 1e-9 (closed-form algebra)"]
